@@ -336,7 +336,7 @@ def run_once(scn, seed, mask_acc=None, mask_req=None, kind="function", exc="Runt
     with Cfg.lock:
         Cfg.raised = []
         Cfg.dimse = []
-    out = lifecycle.run(scn, seed, raise_mask_acc=mask_acc, raise_mask_req=mask_req, watchdog=10.0)
+    out = lifecycle.run(scn, seed, raise_mask_acc=mask_acc, raise_mask_req=mask_req, watchdog=6.0)
     comp, problems = observe(out)
     with Cfg.lock:
         raised = list(Cfg.raised)
